@@ -27,7 +27,7 @@ type C16Case struct {
 	Probes []C16Probe  `json:"probes"`
 }
 
-var c16Ops = []string{"get", "get", "insert", "insert", "inserthigh", "insertlow", "insertlow", "update", "delete", "delete", "deletetop", "deletetop", "delabsent", "clone", "mutclone", "mutpersist", "getwrongtype", "openbad", "cursor", "min", "max", "ceil", "forward", "backward", "seekfirst"}
+var c16Ops = []string{"get", "get", "insert", "insert", "inserthigh", "insertlow", "insertlow", "update", "delete", "delete", "deletetop", "deletetop", "delabsent", "clone", "mutclone", "mutpersist", "getwrongtype", "getseq", "getseq", "openlegacy", "openbad", "cursor", "min", "max", "ceil", "forward", "backward", "seekfirst"}
 
 func genC16(t *rapid.T, tier string) C16Case {
 	c := C16Case{Cfg: core.GenConfig(t, tier, core.GenOpts{Caches: []string{"none"}, Vals: []string{core.VInt, core.VString, core.VBytes, core.VPtr, core.VStruct}, BigOneIn: 8})}
@@ -268,6 +268,26 @@ func runC16(c C16Case, o *run.Obs) error {
 				}
 				err = count("MakeRoot of an opened and then modified version", bound, func() error { _, e := lt.M.MakeRoot(core.Ctx); return e })
 			}
+		case "getseq":
+			// several lookups on the SAME opened handle: each of them is a lookup (state kept between calls must not cost reads)
+			for j := 0; j < 4 && err == nil; j++ {
+				kj := (pr.K*(j+1) + j*j*7) % len(w.Pool)
+				if j%2 == 1 {
+					if pk, ok := core.PresentKey(lt.Model, pr.K+j*13); ok {
+						kj = pk
+					}
+				}
+				if j == 2 && kj+1 < len(w.Pool) {
+					kj++ // a neighbour of the previous key: often in the same node's range without being in that node
+				}
+				var v interface{}
+				kk := w.Pool[kj]
+				err = count(fmt.Sprintf("Get(%v) as lookup #%d on one opened handle", kk, j+1), h+1, func() error { _, e := lt.M.Get(core.Ctx, kk, &v); return e })
+			}
+		case "openlegacy":
+			// a root record as written before the node-format field existed (or one that went through JSON)
+			viaJSON := true
+			err = count("LoadMast of a root record that went through JSON", 1, func() error { _, e := w.Load(sr, nil, nil, viaJSON); return e })
 		case "getwrongtype":
 			// a lookup with a key of another type than the tree's keys: whatever it answers, it is a lookup
 			var wrong interface{}
